@@ -51,6 +51,7 @@ type Frame struct {
 	nSafety  map[string]int
 	preVals  map[ssa.Value]Val
 	locals   map[string][]localDef
+	callSites map[ssa.Instruction]int
 }
 
 const maxInlineDepth = 6
@@ -268,8 +269,11 @@ func (s *Session) enterBlock(fr *Frame, b *ssa.BasicBlock) *State {
 		fr.vals[ph] = entryVals[ph]
 	}
 	for i, inv := range invs {
-		f := s.evalBoolClause(fr, inv, st, b)
-		s.addObl(&Obligation{Name: fmt.Sprintf("%s/inv#%d.%s:entry", fr.oblPfx, ord, clauseName(inv, i)), Kind: "inv:entry", Func: fr.oblPfx, Src: inv.Src, Guard: st.Reach, Formula: f})
+		subs := splitClause(inv)
+		for _, sub := range subs {
+			f := s.evalBoolClause(fr, sub, st, b)
+			s.addObl(&Obligation{Name: fmt.Sprintf("%s/inv#%d.%s:entry", fr.oblPfx, ord, clauseNameSplit(inv, i, sub, len(subs))), Kind: "inv:entry", Func: fr.oblPfx, Src: sub.Src, Guard: st.Reach, Formula: f})
+		}
 	}
 	// havoc loop targets
 	lb := loopBlocks(b)
@@ -312,6 +316,29 @@ func (s *Session) enterBlock(fr *Frame, b *ssa.BasicBlock) *State {
 		hv := s.opaqueVal(ph.Type(), "loop_"+ph.Comment)
 		fr.vals[ph] = hv
 		s.assume(Imp(st.Reach, And(s.rangeFacts(hv), s.refFacts(st, hv))))
+	}
+	// structural fact of `for i := range x` lowering: -1 <= rangeindex < len(x) at the loop head
+	for _, ph := range phis {
+		if ph.Comment != "rangeindex" {
+			continue
+		}
+		for _, in := range b.Instrs {
+			cmp, ok := in.(*ssa.BinOp)
+			if !ok || cmp.Op != token.LSS {
+				continue
+			}
+			add, ok := cmp.X.(*ssa.BinOp)
+			if !ok || add.Op != token.ADD || add.X != ssa.Value(ph) {
+				continue
+			}
+			if _, known := fr.vals[cmp.Y]; !known {
+				if _, isC := cmp.Y.(*ssa.Const); !isC {
+					continue
+				}
+			}
+			lim := s.valueOf(fr, cmp.Y).T0()
+			s.assume(Imp(st.Reach, And(Le(I(-1), fr.vals[ph].T0()), Lt(fr.vals[ph].T0(), Ite(Gt(lim, I(0)), lim, I(1))))))
+		}
 	}
 	for _, inv := range invs {
 		f := s.evalBoolClause(fr, inv, st, b)
@@ -390,8 +417,11 @@ func (s *Session) setEdge(fr *Frame, from, to *ssa.BasicBlock, cond T, st *State
 					fr.vals[ph] = v
 				}
 				for i, inv := range invs {
-					f := s.evalBoolClause(fr, inv, st, to)
-					s.addObl(&Obligation{Name: fmt.Sprintf("%s/inv#%d.%s:step", fr.oblPfx, ord, clauseName(inv, i)), Kind: "inv:step", Func: fr.oblPfx, Src: inv.Src, Guard: cond, Formula: f})
+					subs := splitClause(inv)
+					for _, sub := range subs {
+						f := s.evalBoolClause(fr, sub, st, to)
+						s.addObl(&Obligation{Name: fmt.Sprintf("%s/inv#%d.%s:step", fr.oblPfx, ord, clauseNameSplit(inv, i, sub, len(subs))), Kind: "inv:step", Func: fr.oblPfx, Src: sub.Src, Guard: cond, Formula: f})
+					}
 				}
 				for ph, v := range saved {
 					fr.vals[ph] = v
